@@ -224,6 +224,8 @@ pub struct ANode {
     pub path: Vec<usize>,
     /// true when some edge between this vertex and its component root (inclusive of own edge) is @optional
     pub in_optional: bool,
+    /// whether the vertex this edge leaves from is itself inside an optional scope of its component
+    pub source_in_optional: bool,
 }
 
 #[derive(Clone, Debug)]
@@ -440,6 +442,7 @@ fn ann_edge(
         children,
         path,
         in_optional,
+        source_in_optional: parent_in_optional,
     }
 }
 
